@@ -109,4 +109,7 @@ def run(env: Env) -> Outcome:
     suite.live_runs(env, out, env.budget(350, 7000), [monitors.mon_c08], gen_kwargs={"family": "retry"})
     # lineages that pass through a step suspended in wait_for_event between two entries of their handler
     suite.live_runs(env, out, env.budget(120, 2400), [monitors.mon_c08], gen_kwargs={"family": "wait_retry"})
+    # lineages that continue through ctx.send_event (from the handler itself, from a relay step downstream of it, from the
+    # failing step before it fails) and fail again into the same handler
+    suite.live_runs(env, out, env.budget(120, 2400), [monitors.mon_c08], gen_kwargs={"family": "handler_send"})
     return out
